@@ -22,7 +22,9 @@ RULE = ('well-formed expressions of depth <=5 (thorough <=6) from a typed '
         'elements, def bodies whose free variables are re-bound at the call '
         'site, unbound names, def names under which the library has methods '
         '(len, sum, first, select, where, toList, any); documents are '
-        'generated; histories of evaluations that are given no context, '
+        'generated, plus collections mixing records and nested lists of '
+        'records under member access; histories of evaluations that are '
+        'given no context, '
         'with the document and then with no data at all (`$` unknown); '
         'non-trivial = scope '
         'depth >=2 and (a read whose binder is not the innermost frame, or a '
@@ -608,9 +610,38 @@ def contextless_cases(max_depth):
     return hist()
 
 
+# member access over collections that mix records and (nested) lists of
+# records: `.name` maps over the elements, whatever shape each one has
+_rec = st.fixed_dictionaries({'a': st.integers(-2, 4), 'b': st.fixed_dictionaries(
+    {'c': st.integers(-2, 4)})})
+_mixed = st.lists(st.recursive(_rec, lambda ch: st.lists(ch, max_size=3),
+                               max_leaves=5), max_size=4)
+MIXED_ASTS = [
+    ('dot', ('dot', ('var', '$'), 'mixed'), 'a'),
+    ('dot', ('dot', ('dot', ('var', '$'), 'mixed'), 'b'), 'c'),
+    ('dot', ('m', ('dot', ('var', '$'), 'mixed'), 'where',
+             (('bool', True),)), 'a'),
+    ('dot', ('dot', ('dot', ('var', '$'), 'groups'), 'mixed'), 'a'),
+    ('m', ('dot', ('var', '$'), 'mixed'), 'select',
+     (('dot', ('var', '$'), 'a'),)),
+    ('let', (), (('d', ('dot', ('var', '$'), 'mixed')),),
+     ('list', (('dot', ('var', '$d'), 'a'), ('dot', ('var', '$d'), 'b')))),
+]
+
+
+def mixed_cases():
+    return st.builds(
+        lambda a, m, g: {'kind': 'program', 'ast': a, 'features': ['shadow'],
+                         'doc': {'mixed': m, 'groups': [{'mixed': x}
+                                                        for x in g]}},
+        st.sampled_from(MIXED_ASTS), _mixed, st.lists(_mixed, max_size=2))
+
+
 def _shard(run, n, depth, shard):
     run.hyp('programs', programs(depth), lambda c: check_program(run, c), n,
             shard=shard)
+    run.hyp('mixed-collections', mixed_cases(),
+            lambda c: check_program(run, c), max(n // 10, 5), shard=shard)
     run.hyp('contextless', contextless_cases(3),
             lambda c: check_contextless(run, c), max(n // 10, 5),
             shard=shard)
